@@ -73,6 +73,10 @@ def steady_state_transport_solver(
         2D or 3D field of kinematic flux at levels or footprint.
     """
 
+    # resolve the default halo first so that cache lookup and store agree on it
+    if halo is None:
+        halo = max(domain)
+
     # Check cache for footprint mode
     if cache is not None and footprint:
         cached = cache.get(z, profiles, domain, modes, meas_pt, halo, precision)
@@ -104,10 +108,6 @@ def steady_state_transport_solver(
     levels = np.asarray(levels)
 
     nlvls = len(levels)
-
-    # halo to deal with periodicity of FFT
-    if halo is None:
-        halo = max(xmx, ymx)
 
     # pad width
     px = int(halo / dx)
